@@ -176,6 +176,71 @@ def call_closed(p0: bool, p1: bool) -> bool:
     return verdict(False)
 
 
+# -------------------------------------------------------------------------------- L5: a call made after the listener has gone
+class _Hang(Exception):
+    """the caller would wait for a future that nobody is left to complete"""
+
+
+def late_call(end: int, provider_open: bool) -> bool:
+    """
+    pre: 1 <= end <= 5
+    post: _
+    """
+    # The listener task has ended (transport fault 1-4 or close request 5), through the real _run.  The connection object may still
+    # look open (a half-closed TCP connection does).  A call made NOW goes through the real call() and the real stream_send_msg:
+    # it must fail, promptly - it must not end up waiting for a response that cannot come.
+    enter()
+    prov = Prov(open_=True)
+    nc, futs = _client([], prov)
+    nc.running = True
+
+    async def recv(reader):
+        if end <= 4:
+            raise _mkfault(FAULTS[end])
+        return 99, IPC.KGRemoteCloseConnection()
+
+    async def send(writer, msg_id, msg):
+        pass
+    patch(stream_recv_msg=recv, stream_send_msg=send)
+    try:
+        kind, val = step(nc._run(None, None, None))
+    finally:
+        unpatch()
+    if kind != 'ret':
+        return verdict(False)
+    prov.open = provider_open
+
+    class _A:
+        @staticmethod
+        def run_coroutine_threadsafe(coro, loop):
+            r = step(coro)
+
+            class _H:
+                def result(self_, timeout=None):
+                    if r[0] == 'exc':
+                        raise r[1]
+                    if r[0] == 'susp':
+                        raise _Hang()
+                    return r[1]
+            return _H()
+
+    class _U:
+        @staticmethod
+        def uuid4():
+            return 7
+    patch(asyncio=_A, uuid=_U)                   # the real stream_send_msg stays in place
+    try:
+        try:
+            nc.call("late message")
+        except _Hang:
+            return verdict(False)
+        except Exception:
+            return verdict(True)                 # fails promptly: fine, whatever the exception class
+        return verdict(False)                    # there is nobody who could have answered
+    finally:
+        unpatch()
+
+
 # -------------------------------------------------------------------------------- S: scheduled simulation of callers + listener
 class _Sched:
     """properly nested interleavings: a caller blocked in .result() lets the scheduler run other actors"""
@@ -399,6 +464,7 @@ def obligations(tier):
         {"name": "L1 one _listen step from any pending table", "fn": "listen_step", "cfg": {}, "timeout": T_},
         {"name": "L2 _run ends with every pending call completed exactly once", "fn": "run_end", "cfg": {"idmax": 2 if q else 3}, "timeout": T_},
         {"name": "L3 call on a closed connection registers nothing and raises", "fn": "call_closed", "cfg": {}, "timeout": 60},
+        {"name": "L5 a call made after the listener has gone fails promptly (real send path)", "fn": "late_call", "cfg": {}, "timeout": 60},
         # server side: whatever a command does (incl. every failure class) its result future is completed exactly once, so the
         # response - or the error - is sent and the remote caller does not wait forever (harness shared with C13)
         {"name": "L4 server side: every command class completes its response future exactly once", "module": "vt.props.C13", "fn": "dispatch",
